@@ -4,6 +4,7 @@
 Require Import FstV.Base FstV.Pack FstV.Node FstV.Registry FstV.Builder FstV.GraphSem FstV.Format
                FstV.CodecSpec FstV.Fst.
 Require Import Coq.FSets.FMapPositive.
+Require FstV.proofs.BuilderBasics.
 
 (* ---------- the ghost store: the nodes written so far, newest (highest address) first ---------- *)
 Definition store := list (N * snode).
@@ -137,6 +138,23 @@ Fixpoint Cpost (cl : N -> kmap) (st : list unf) (tail : kmap) (p : nat) (v : N) 
     end
   end.
 Definition Cstk (cl : N -> kmap) (st : list unf) : Prop := Cpost cl st [] O 0.
+
+(* ---------- minimality (C12): no duplicates without eviction, reachability ---------- *)
+Definition strip (E : store) : list (N * bnode) := map (fun x => (fst x, bn_of (snd x))) E.
+Definition is_sentinel (n : bnode) : Prop := n_final n = true /\ n_trans n = [] /\ n_fout n = 0.
+(* the empty final node is never written; unless the cache is degenerate, while nothing has been
+   evicted the cache holds exactly the written nodes (BuilderBasics.reg_inv) *)
+Definition Ginv (zg : bool) (b : builder) (E : store) : Prop :=
+  Forall (fun x => ~ is_sentinel (snd x)) (strip E) /\
+  (if zg then r_rows (b_reg b) * r_cols (b_reg b) = 0 else BuilderBasics.ginv b (strip E)).
+Inductive reach (E : store) : N -> N -> Prop :=
+| reach_refl a : reach E a a
+| reach_step a s t a' : In (a, s) E -> In t (sn_trans s) -> reach E (t_addr t) a' -> reach E a a'.
+Definition ftargets (st : list unf) : list N :=
+  flat_map (fun u => map t_addr (n_trans (u_node u))) st.
+(* every written node is below some frozen transition of the unfinished stack *)
+Definition Rinv (E : store) (st : list unf) : Prop :=
+  forall a, In a (addrs E) -> exists x, In x (ftargets st) /\ reach E x a.
 
 (* ---------- registry ---------- *)
 Definition cell_ok (E : store) (c : cell) : Prop :=
